@@ -299,6 +299,9 @@ fn run_config(rt: &tokio::runtime::Runtime, acc: &mut Acc, cfg: &Config, role_gr
                     return;
                 }
                 let cell = format!("{}/{attr}/{kind:?}", t.kind).to_lowercase();
+                if acc.samples.len() < 5 && tag % 41 == 7 {
+                    acc.sample(json!({"actor": actor_kind, "actor_roles": role_names, "target": t.label, "high_privilege_target": is_hp, "attribute": attr, "modification": format!("{kind:?}"), "accepted": out.ok, "error": out.err}));
+                }
                 if is_hp {
                     acc.nontrivial_distinct();
                     acc.observe("hp_cells", &cell);
@@ -361,7 +364,7 @@ fn run_config(rt: &tokio::runtime::Runtime, acc: &mut Acc, cfg: &Config, role_gr
 pub fn run(args: Args) {
     let mut run = Run::new(
         args.clone(),
-        "fault_enumeration",
+        "exploration",
         "enumerated: {person, service-account actor} x subsets of the built-in role groups that do not themselves confer high privilege (read from the live database) [quick: size <= 2; thorough: all, also with membership through an intermediate ordinary group] x {3 high-privilege persons (direct / via role / nested), 2 high-privilege service accounts, 3 high-privilege groups, non-high-privilege controls} x {24 credential / session / account-detail attributes, or member for groups} x {present, remove, purge}. Non-trivial = every cell aimed at a high-privilege target (distinct by enumeration).",
     );
     run.assume("shipped access control profiles only; no high-privilege target is delegated to a non-high-privilege entry manager (checked on the live state per target)");
